@@ -160,17 +160,18 @@ Definition kinds : list kind := [
 
 (* requests that register reply callbacks: (send kind, class for a result reply, class for an error reply) *)
 Definition requests : list (string * string * option string) := [
-  ("send.iq.ping", "ResultIqProtocolEntity", None);
+  ("send.iq.ping", "IqProtocolEntity", Some "ErrorIqProtocolEntity");
+  ("send.iq.sync.get", "ResultSyncIqProtocolEntity", Some "ErrorIqProtocolEntity");
   ("send.iq.lastseen", "ResultLastseenIqProtocolEntity", Some "ErrorIqProtocolEntity");
   ("send.iq.groups.create", "SuccessCreateGroupsIqProtocolEntity", Some "ErrorIqProtocolEntity");
   ("send.iq.groups.info", "InfoGroupsResultIqProtocolEntity", Some "ErrorIqProtocolEntity");
   ("send.iq.groups.leave", "SuccessLeaveGroupsIqProtocolEntity", Some "ErrorIqProtocolEntity");
-  ("send.iq.groups.list", "ListGroupsResultIqProtocolEntity", None);
-  ("send.iq.groups.subject", "ResultIqProtocolEntity", Some "ErrorIqProtocolEntity");
-  ("send.iq.groups.participants", "ListParticipantsResultIqProtocolEntity", None);
+  ("send.iq.groups.list", "ListGroupsResultIqProtocolEntity", Some "ErrorIqProtocolEntity");
+  ("send.iq.groups.subject", "IqProtocolEntity", Some "ErrorIqProtocolEntity");
+  ("send.iq.groups.participants", "ListParticipantsResultIqProtocolEntity", Some "ErrorIqProtocolEntity");
   ("send.iq.groups.participants.add", "SuccessAddParticipantsIqProtocolEntity", Some "FailureAddParticipantsIqProtocolEntity");
-  ("send.iq.groups.participants.promote", "ResultIqProtocolEntity", Some "ErrorIqProtocolEntity");
-  ("send.iq.groups.participants.demote", "ResultIqProtocolEntity", Some "ErrorIqProtocolEntity");
+  ("send.iq.groups.participants.promote", "IqProtocolEntity", Some "ErrorIqProtocolEntity");
+  ("send.iq.groups.participants.demote", "IqProtocolEntity", Some "ErrorIqProtocolEntity");
   ("send.iq.groups.participants.remove", "SuccessRemoveParticipantsIqProtocolEntity", Some "ErrorIqProtocolEntity");
   ("send.iq.picture.get", "ResultGetPictureIqProtocolEntity", Some "ErrorIqProtocolEntity");
   ("send.iq.picture.set", "ResultGetPictureIqProtocolEntity", Some "ErrorIqProtocolEntity");
@@ -178,7 +179,7 @@ Definition requests : list (string * string * option string) := [
   ("send.iq.privacy.get", "ResultPrivacyIqProtocolEntity", Some "ErrorIqProtocolEntity");
   ("send.iq.privacy.set", "ResultPrivacyIqProtocolEntity", Some "ErrorIqProtocolEntity");
   ("send.iq.statuses.get", "ResultStatusesIqProtocolEntity", Some "ErrorIqProtocolEntity");
-  ("send.iq.status.set", "ResultIqProtocolEntity", Some "ErrorIqProtocolEntity");
+  ("send.iq.status.set", "IqProtocolEntity", Some "ErrorIqProtocolEntity");
   ("send.iq.requestupload", "ResultRequestUploadIqProtocolEntity", Some "ErrorIqProtocolEntity")
 ].
 
